@@ -2,21 +2,21 @@ package refts
 
 // PESHeader is the part of the PES packet header the stream model uses.
 type PESHeader struct {
-	StreamID  uint8   `json:"stream_id"`
-	Unbounded bool    `json:"unbounded,omitempty"` // PES_packet_length = 0
-	HasPTS    bool    `json:"has_pts,omitempty"`
-	PTS       uint64  `json:"pts,omitempty"`
-	HasDTS    bool    `json:"has_dts,omitempty"` // only with HasPTS
-	DTS       uint64  `json:"dts,omitempty"`
-	Align     bool    `json:"align,omitempty"`
-	Prio      bool    `json:"prio,omitempty"`
-	Copyright bool    `json:"copyright,omitempty"`
-	Original  bool    `json:"original,omitempty"`
-	HasESCR   bool    `json:"has_escr,omitempty"`
-	ESCR      *Clock  `json:"escr,omitempty"`
-	HasRate   bool    `json:"has_rate,omitempty"`
-	Rate      uint32  `json:"rate,omitempty"`
-	HdrStuff  int     `json:"hdr_stuff,omitempty"` // stuffing bytes inside the PES header
+	StreamID  uint8  `json:"stream_id"`
+	Unbounded bool   `json:"unbounded,omitempty"` // PES_packet_length = 0
+	HasPTS    bool   `json:"has_pts,omitempty"`
+	PTS       uint64 `json:"pts,omitempty"`
+	HasDTS    bool   `json:"has_dts,omitempty"` // only with HasPTS
+	DTS       uint64 `json:"dts,omitempty"`
+	Align     bool   `json:"align,omitempty"`
+	Prio      bool   `json:"prio,omitempty"`
+	Copyright bool   `json:"copyright,omitempty"`
+	Original  bool   `json:"original,omitempty"`
+	HasESCR   bool   `json:"has_escr,omitempty"`
+	ESCR      *Clock `json:"escr,omitempty"`
+	HasRate   bool   `json:"has_rate,omitempty"`
+	Rate      uint32 `json:"rate,omitempty"`
+	HdrStuff  int    `json:"hdr_stuff,omitempty"` // stuffing bytes inside the PES header
 }
 
 // NoOptionalHeader reports stream ids whose PES packets carry no optional header
